@@ -137,8 +137,9 @@ def exact_rows(got, want):
     return len(got) == len(want) and all(len(g) == len(w) and all(fr(x) == y for x, y in zip(g, w)) for g, w in zip(got, want))
 
 
-def cmp_out(outs, val, exact, ctx, fn):
-    """compare the model's 1d/2d rendering with the impl's array"""
+def cmp_out(outs, val, exact, ctx, fn, floor=Fraction(0)):
+    """compare the model's 1d/2d rendering with the impl's array (floor: smallest scale the rounding budget refers to -- a result that is
+    nothing but rounding residue, e.g. a spike whose only non-zero sample was cut off by start=True, is not compared relative to itself)"""
     v = np.asarray(val)
     tag = outs[0][0] if outs and outs[0] else '?'
     if tag == '1d':
@@ -152,7 +153,7 @@ def cmp_out(outs, val, exact, ctx, fn):
             return f"shape impl={v.shape} model=2-D with {m} rows"
         mrows = [p_rats(outs[1 + i]) if len(outs) > 1 + i else [] for i in range(m)]
         irows = [list(r) for r in v]
-    scale = max([abs(x) for r in mrows for x in r] + [Fraction(0)])
+    scale = max([abs(x) for r in mrows for x in r] + [Fraction(0), fr(floor)])
     for i, (ir, mr) in enumerate(zip(irows, mrows)):
         if exact:
             msg = cmp_exact(ir, mr)
@@ -219,6 +220,14 @@ def run(ctx):
         ups = [red[1]] * m if red[0] == 'S' else list(red[1])
         downs = [red[2]] * m if red[0] == 'S' else list(red[2])
         red_ok = red[0] == 'S' or (len(red[1]) == m and len(red[2]) == m)
+        # natural magnitudes of the outputs given the INPUTS (hx_r7d): motions <= mag, energies <= e_mag.  A result far below 1e-4 of these is pure
+        # rounding residue (the float quotient 2*tt/dt next to a whole number moves the interpolated delayed wave by ~1e-16 * slope); the 1e-9
+        # budgets below are taken relative to at least 1e-4 of the natural magnitude (i.e. an absolute 1e-13 of it) instead of relative to the residue
+        with np.errstate(all='ignore'):
+            mag = float(np.max(np.abs(a))) * (max([abs(float(x)) for x in ups] + [0.0]) + max([abs(float(x)) for x in downs] + [0.0])) if n else 0.0
+            e_mag = 0.5 * (mag * float(dt) * (n + max(ms_f, 0))) ** 2
+        floors = {'calc_surface_energy': 1e-4 * e_mag, 'calc_cum_abs_surface_energy': 4e-4 * e_mag, 'get_time_shift_motions': 1e-4 * mag}
+        floors = {k_: (v_ if np.isfinite(v_) else 0.0) for k_, v_ in floors.items()}
         sane = (red_ok and all(t >= 0 for t in tts) and stt >= 0 and all(ss_f - s <= n for s in s2d_f))
         if red[0] == 'S':
             rs = f"S|{w_rat(red[1])}|{w_rat(red[2])}"
@@ -236,7 +245,7 @@ def run(ctx):
             ctx.oracle(f'C19 {name} leaves the signal, the travel times and the reduction arrays unchanged', bool(unchanged), inputs)
             if agree or dyadic:
                 req = f"{handler}|{w_rats(a)}|{w_rat(dt)}|{w_rats(tts)}|{w_bool(nodal)}|{rs}|{w_rat(stt)}|{w_bool(trim)}|{w_bool(start)}"
-                ctx.corr(name, req, _err(res), lambda outs, val, dyadic=dyadic, name=name: cmp_out(outs, val, dyadic, ctx, name), inputs=inputs)
+                ctx.corr(name, req, _err(res), lambda outs, val, dyadic=dyadic, name=name, fl=floors[name]: cmp_out(outs, val, dyadic, ctx, name, floor=fl), inputs=inputs)
             if sane:
                 ctx.oracle(f'C19 {name} returns on its domain (tt >= 0, 0 <= stt, start shift within the record)', res[0] == 'ok', inputs,
                            detail=res if res[0] == 'err' else None, facts={'function': name, 'clause': 'returns'})
@@ -275,8 +284,8 @@ def run(ctx):
             en = spec_energy_rows(acc, float(dt))
             want_A = spec_trim(acc, n, s2d_f, ss_f, trim, start)
             want_E = spec_trim(en, n, s2d_f, ss_f, trim, start)
-            sa = max([abs(x) for r in want_A for x in r] + [1e-300])
-            se_ = max([abs(x) for r in want_E for x in r] + [1e-300])
+            sa = max([abs(x) for r in want_A for x in r] + [1e-300, floors['get_time_shift_motions']])
+            se_ = max([abs(x) for r in want_E for x in r] + [1e-300, floors['calc_surface_energy']])
             okA, okE = close_rows(A, want_A, 1e-9 * sa), close_rows(E, want_E, 1e-9 * se_)
         else:
             okA = okE = None
@@ -881,4 +890,78 @@ _run_main_r7 = run
 def run(ctx):
     _run_main_r7(ctx)
     _LW.corr_red_shapes(ctx)
+    ctx.flush()
+
+
+# ---- extras3 (hx_r7d, round 7): ONE record object serving a sequence of surface calls ----------------------------------------------------------
+# The surface functions take a signal OBJECT.  Whatever an earlier call (of any of the three functions, with other, nearly equal, permuted, fewer or
+# more travel times, other options) or an earlier history of the object (gen.aged_signal, incl. generators called with non-default options) left
+# on the object, the next call must return what it returns for a brand-new AccSignal of the same record and time step -- bit for bit.
+
+def _x3_same_object(ctx, cur):
+    import eqsig
+    from eqsig import surface as sf
+    from _hxb_common import same
+    rng = ctx.rng
+    fns = [('calc_surface_energy', sf.calc_surface_energy), ('calc_cum_abs_surface_energy', sf.calc_cum_abs_surface_energy), ('get_time_shift_motions', sf.get_time_shift_motions)]
+    for it in range(30 if ctx.tier == 'quick' else 300):
+        n = gen.log_int(rng, 8, 200)
+        dt = rng.choice([0.01, 0.02, 0.005, 0.125])
+        a = gen.any_record(rng, n, dt)[1]
+        m = rng.randint(1, 3)
+        tts = np.array([rng.choice([rng.uniform(0, 3 * dt), rng.uniform(0, 1e-3 * dt), rng.randint(0, 6) * dt / 2 + rng.uniform(0, 1e-4 * dt)]) for _ in range(m)])
+        kw = {'nodal': rng.random() < 0.6, 'up_red': rng.choice([1.0, 0.8]), 'down_red': rng.choice([1.0, 0.9]), 'stt': rng.choice([0.0, 0.0, 2 * dt]),
+              'trim': rng.random() < 0.5, 'start': rng.random() < 0.3}
+        asig = ctx.aged(eqsig.AccSignal, a, dt)
+        hist_kind = ctx.last_object_history
+        log = []
+        for step in range(rng.randint(3, 6)):
+            op = rng.choice(['nearly equal travel times', 'nearly equal travel times', 'same travel times', 'rows permuted', 'one travel time changed', 'one more travel time',
+                             'one fewer', 'options changed', 'record replaced']) if step else 'first call'
+            if op == 'nearly equal travel times':
+                # a refinement / bisection step: same count, same whole-sample maximum delay (usually), delays that agree to many digits but are not equal
+                tts = tts * (1 + rng.choice([1e-7, 3e-7, -2e-7, 1e-6, 1e-5, 1e-9])) + rng.choice([0.0, 1e-8 * dt, 2e-7 * dt])
+            elif op == 'rows permuted' and len(tts) > 1:
+                tts = tts[::-1].copy()
+            elif op == 'one travel time changed':
+                tts = tts.copy()
+                tts[rng.randrange(len(tts))] = rng.uniform(0, 3 * dt)
+            elif op == 'one more travel time':
+                tts = np.append(tts, rng.uniform(0, 3 * dt))
+            elif op == 'one fewer' and len(tts) > 1:
+                tts = tts[:-1].copy()
+            elif op == 'options changed':
+                kw = {**kw, 'nodal': not kw['nodal']} if rng.random() < 0.5 else {**kw, 'trim': not kw['trim'], 'down_red': rng.choice([1.0, 0.9, 0.5])}
+            elif op == 'record replaced':
+                a = gen.any_record(rng, n if rng.random() < 0.7 else n + rng.randint(1, 5), dt)[1]
+                asig.reset_values(a)
+            nm, f = rng.choice(fns)
+            log.append({'step': op, 'function': nm, 'travel_times': tts.tolist(), **kw})
+            inputs = {'values': a, 'dt': dt, 'calls on the same object so far': log[-4:]}
+            cur.clear()
+            cur.update(inputs)
+            ctx.hist('extras3/same object/' + op)
+            ctx.count_case(('x3so', a.tobytes(), dt, tts.tobytes(), repr(kw), nm, step), gen.nontrivial_record(a))
+            keep = tts.copy()
+            got = call_impl(f, asig, tts, **kw)
+            want = call_impl(f, eqsig.AccSignal(np.array(a, copy=True), dt), keep.copy(), **kw)
+            ok = got[0] == want[0] and (got[1] == want[1] if got[0] != 'ok' else same(got[1], want[1])) and np.array_equal(tts, keep) and np.array_equal(asig.values, a)
+            ctx.last_object_history = hist_kind
+            ctx.oracle('C19 %s on a record object that served earlier surface calls (other / nearly equal / permuted travel times, other options) == on a brand-new '
+                       'object of the same record (==); travel times and record unchanged' % nm, ok, inputs,
+                       detail=None if ok else {'same object': got[1] if got[0] != 'ok' else np.asarray(got[1]).reshape(-1)[:6], 'fresh object': want[1] if want[0] != 'ok' else np.asarray(want[1]).reshape(-1)[:6]})
+        ctx.last_object_history = None
+
+
+def extras3(ctx):
+    from _hxb_common import guarded_sections
+    guarded_sections(ctx, 'C19', [('same object', _x3_same_object)])
+
+
+_run_main3 = run
+
+
+def run(ctx):
+    _run_main3(ctx)
+    extras3(ctx)
     ctx.flush()
